@@ -262,10 +262,27 @@ func genEdge(t *rapid.T, label string) time.Duration {
 func TestProp_Window(t *testing.T) {
 	rec := vkit.Rec(prop)
 	vkit.SetRapidChecks(vkit.N(800))
-	w := vkit.NewWorld(vkit.WorldConfig{})
+	w0 := vkit.NewWorld(vkit.WorldConfig{})
+	// a server that accepts the wrapping registration flow
+	regW := vkit.NewAead("registration")
+	wReg := vkit.NewWorld(vkit.WorldConfig{})
+	wReg.Opts = append(wReg.Opts, nodeenrollment.WithRegistrationWrapper(regW))
+	seal := func(info *types.FetchNodeCredentialsInfo) {
+		// registration info that agrees with whatever the bundle says
+		b, _ := proto.Marshal(&types.WrappingRegistrationFlowInfo{CertificatePublicKeyPkix: info.CertificatePublicKeyPkix, Nonce: info.Nonce})
+		blob, err := regW.Encrypt(wReg.Ctx, b)
+		if err != nil {
+			panic(err)
+		}
+		info.WrappedRegistrationInfo, _ = proto.Marshal(blob)
+	}
 	rapid.Check(t, func(t *rapid.T) {
 		c := windowCase{}
-		c.Entry = rapid.SampledFrom([]string{"authorize", "fetch-authorized", "fetch-unknown"}).Draw(t, "entry")
+		c.Entry = rapid.SampledFrom([]string{"authorize", "fetch-authorized", "fetch-unknown", "fetch-wrapped"}).Draw(t, "entry")
+		w := w0
+		if c.Entry == "fetch-wrapped" {
+			w = wReg
+		}
 		nbSkew, naSkew := -genSkew(t, "nbskew"), genSkew(t, "naskew")
 		a, b := genEdge(t, "nbedge"), genEdge(t, "naedge")
 		// bias towards "other edge comfortably fine" so that each edge decides alone
@@ -313,6 +330,9 @@ func TestProp_Window(t *testing.T) {
 		case "not-before-bad-nanos":
 			info.NotBefore.Nanos = rapid.SampledFrom([]int32{-1, 1_000_000_000, 2_000_000_000}).Draw(t, "nanos")
 		}
+		if c.Entry == "fetch-wrapped" {
+			seal(info)
+		}
 		req := vkit.Sign(info, actor.CertPriv)
 		if c.Field == "cert-key-not-ed25519" {
 			// the bundle claims an Ed25519 key but names a well-formed key of another kind;
@@ -334,6 +354,9 @@ func TestProp_Window(t *testing.T) {
 				t.Fatalf("marshal: %v", perr)
 			}
 			info.CertificatePublicKeyPkix = pk
+			if c.Entry == "fetch-wrapped" {
+				seal(info)
+			}
 			b, _ := proto.Marshal(info)
 			sig := ed25519.Sign(actor.CertPriv, b)
 			if rapid.Bool().Draw(t, "zeroSignature") {
@@ -351,7 +374,7 @@ func TestProp_Window(t *testing.T) {
 		default:
 			var resp *types.FetchNodeCredentialsResponse
 			resp, err = registration.FetchNodeCredentials(w.Ctx, w.Store, req, opts...)
-			if err == nil && c.Entry == "fetch-authorized" && len(resp.GetEncryptedNodeCredentials()) == 0 {
+			if err == nil && (c.Entry == "fetch-authorized" || c.Entry == "fetch-wrapped") && len(resp.GetEncryptedNodeCredentials()) == 0 {
 				err = fmt.Errorf("no credentials in response")
 			}
 		}
